@@ -107,6 +107,10 @@ def gen_case(rng, tier, i=None):
         # stderr has gone away (closed terminal, `2>&1 | head`, a full disk behind 2>log): every write to it fails.  The command may
         # die of it; a report it does produce is the right one
         case['stderr_broken'] = True
+    if i is not None and i % 5 == 3:
+        # stdout cannot encode everything (PYTHONIOENCODING, LC_ALL=C, a legacy console): printing a name or an amount cell as
+        # written may raise - the command may die of it, loudly; what it does report is right.  By the run index, not drawn.
+        case['stdout_encoding'] = ('ascii', 'latin-1')[(i // 5) % 2]
     case['world'] = util.snap_to_json({r: c.encode('utf-8') for r, c in files.items()})
     return case
 
@@ -288,9 +292,25 @@ def execute(case, scratch):
             plan['env'] = {'TALLY_CONFIG': os.path.join(os.path.realpath(root), 'elsewhere-budget', 'config')}
         if case.get('stderr_broken'):
             plan['stdout_fault'] = {'after_effect': -1, 'stream': 'stderr'}
+        if case.get('stdout_encoding'):
+            plan['stdout_encoding'] = case['stdout_encoding']
+            count['fired.stdout-' + case['stdout_encoding']] = count.get('fired.stdout-' + case['stdout_encoding'], 0) + 1
         r = proc.run_cli(root, argv, plan, cwd=cwd, ctl_parent=ctlp)
         count['sim_processes'] += 1
         return r
+
+    def loud(r):
+        """The command stopped, with a non-zero status, over something the machine did to its output streams: nobody reading
+        stderr, or a stdout that cannot encode what was to be printed.  Loud, not wrong: not judged, counted."""
+        if r.exit == 0:
+            return False
+        if case.get('stderr_broken'):
+            count['died_of_broken_stderr'] = count.get('died_of_broken_stderr', 0) + 1
+            return True
+        if case.get('stdout_encoding') and 'UnicodeEncodeError' in r.err:
+            count['died_of_stdout_encoding'] = count.get('died_of_stdout_encoding', 0) + 1
+            return True
+        return False
 
     try:
         # ---- fault-free: the wiring clause
@@ -315,8 +335,8 @@ def execute(case, scratch):
             if r.exit == 0 and os.path.exists(html_path):
                 with open(html_path, 'r', encoding='utf-8') as fh:
                     data = rp.extract_spending_data(fh.read())
-            if data is None and case.get('stderr_broken') and r.exit != 0:
-                count['died_of_broken_stderr'] = count.get('died_of_broken_stderr', 0) + 1
+            if data is None and loud(r):
+                pass
             elif data is None:
                 add('WIRE', 'no-report', 'none', 'fault-free `tally up` exits %d and wrote no readable report: %s'
                     % (r.exit, (r.err.strip().split('\n') or [''])[-1][:300]), None)
@@ -327,8 +347,8 @@ def execute(case, scratch):
             r = run_up('json', {})
             doc = parse_json_report(r.out) if r.exit == 0 else None
             log.append(['json', r.exit, util.sha(util.norm_text(r.out, root))])
-            if doc is None and case.get('stderr_broken') and r.exit != 0:
-                count['died_of_broken_stderr'] = count.get('died_of_broken_stderr', 0) + 1
+            if doc is None and loud(r):
+                pass
             elif doc is None:
                 add('WIRE', 'no-report', 'none', 'fault-free `tally up --format json` exits %d: %s' % (r.exit, (r.err.strip().split('\n') or [''])[-1][:300]), None)
             else:
@@ -354,7 +374,7 @@ def execute(case, scratch):
                 log.append(['supp-fault', f, fmt, r.exit, util.sha(util.norm_text(text, root))])
                 if f['kind'] in ('EIO', 'EIO-once') and not any(e.get('k') == 'readfault' for e in r.events):
                     continue
-                if r.exit != 0 and case.get('stderr_broken'):
+                if loud(r):
                     continue
                 if r.exit != 0:
                     add('ISO', 'aborted', 'supplemental-' + f['kind'], 'supplemental source %s cannot be loaded (%s) and `tally up` exits %d: %s'
@@ -482,13 +502,14 @@ def execute(case, scratch):
                         continue
                     failing = gave_up
             if not model['txns']:
+                if case.get('stdout_encoding') and loud(r):
+                    continue
                 if r.exit == 0:
                     add('REP', 'all-sources-failed-exit-0', f['kind'], 'every source fails (%s) yet `tally up` exits 0' % failing, f)
                 elif 'No transactions found' not in text and 'Traceback' in text:
                     add('REP', 'all-sources-failed-traceback', f['kind'], 'every source fails (%s): %s' % (failing, text.strip().split('\n')[-1][:200]), f)
                 continue
-            if r.exit != 0 and case.get('stderr_broken'):
-                count['died_of_broken_stderr'] = count.get('died_of_broken_stderr', 0) + 1
+            if loud(r):
                 continue
             if r.exit != 0:
                 add('ISO', 'aborted', f['kind'], 'source %s fails (%s) and `tally up` exits %d although other sources have %d transactions: %s'
